@@ -48,6 +48,26 @@ pub fn handle(op: &str, req: &Value) -> Option<Value> {
             // keep the witness's distance between the limit and the payload length
             let mreal = (probe as i128 + (m - l)).clamp(0, 1 << 40) as usize;
             let compress = req["compress"].as_bool().unwrap_or(false);
+            let lc = req["compressed_len"].as_u64().unwrap_or(0) as i128;
+            if compress && m < l && m >= 1 + lc {
+                // witness shape "fits only once compressed": a highly compressible message and a limit between the two sizes
+                use tensor_chain::network::RequestVote;
+                let big = Message::RequestVote(RequestVote { term: 1, candidate_id: "a".repeat(4000), last_log_index: 0, last_log_term: 0,
+                    state_embedding: tensor_store::SparseVector::new(0) });
+                let ser = LengthDelimitedCodec::new(1 << 20).encode(&big).map(|f| f.len() - 4).unwrap_or(0);
+                let mut probe_c = LengthDelimitedCodec::with_compression(1 << 20, CompressionConfig::default());
+                probe_c.set_compression_enabled(true);
+                let comp = probe_c.encode_v2(&big).map(|f| f.len() - 4).unwrap_or(0);
+                let limit = (comp + ser) / 2;
+                let mut codec = LengthDelimitedCodec::with_compression(limit, CompressionConfig::default());
+                codec.set_compression_enabled(true);
+                let bad = match codec.encode_v2(&big) {
+                    Ok(f) => codec.decode_payload_v2(&f[4..]).is_err(),
+                    Err(_) => false,
+                };
+                return Some(json!({"serialized": ser, "compressed_frame": comp, "max_frame_length": limit, "violates": bad,
+                                   "detail": "encode_v2 emitted a frame its own decode_payload_v2 rejects"}));
+            }
             let mut codec = LengthDelimitedCodec::with_compression(mreal, CompressionConfig::default());
             codec.set_compression_enabled(compress);
             let mut bad = false;
